@@ -112,7 +112,7 @@ var shrinkers = map[string]struct {
 
 // rankings declared for loops whose argument is lexicographic: function -> components over the loop's variables.
 var declaredRankings = map[string][]string{
-	"(*internal/dnsmsg.NameBuilder).unpack": {"10 - ptr", "len(msg) - currOff"},
+	"(*internal/dnsmsg.NameBuilder).unpack": {"10 - $hops", "len($buf) - $cursor"},
 }
 
 func r01d(c *core.Ctx) {
@@ -788,6 +788,37 @@ func checkRanking(p *core.Prover, l *natLoop, comps []string) (bool, string) {
 			vars[phi.Comment] = phi
 		}
 	}
+	// role names, independent of what the source calls its variables:
+	//   $hops   = the header variable compared with an integer constant inside the loop after being incremented
+	//   $cursor = the header variable used to index a []byte parameter;  $buf = that parameter
+	bufName := ""
+	for _, in := range l.head.Instrs {
+		phi, ok := in.(*ssa.Phi)
+		if !ok || !isIntType(phi.Type()) {
+			continue
+		}
+		for _, r := range *phi.Referrers() {
+			switch x := r.(type) {
+			case *ssa.IndexAddr:
+				if par, ok := core.Strip(x.X).(*ssa.Parameter); ok && x.Index == ssa.Value(phi) {
+					vars["$cursor"] = phi
+					bufName = par.Name()
+				}
+			case *ssa.BinOp:
+				if x.Op == token.ADD && x.X == ssa.Value(phi) {
+					if k, isC := core.ConstInt(x.Y); isC && k == 1 {
+						for _, rr := range *x.Referrers() {
+							if cmp, ok := rr.(*ssa.BinOp); ok && (cmp.Op == token.GTR || cmp.Op == token.GEQ) {
+								if _, isC := core.ConstInt(cmp.Y); isC {
+									vars["$hops"] = phi
+								}
+							}
+						}
+					}
+				}
+			}
+		}
+	}
 	// component as a function of a valuation of the header variables
 	parse := func(s string, val func(phi *ssa.Phi) core.Lin) (core.Lin, bool) {
 		res := core.LinConst(0)
@@ -804,6 +835,9 @@ func checkRanking(p *core.Prover, l *natLoop, comps []string) (bool, string) {
 					res = res.AddC(sign * k)
 				} else if strings.HasPrefix(tok, "len(") {
 					name := strings.TrimSuffix(strings.TrimPrefix(tok, "len("), ")")
+					if name == "$buf" {
+						name = bufName
+					}
 					found := false
 					for _, par := range l.fn.Params {
 						if par.Name() == name {
